@@ -569,6 +569,11 @@ func registerFault(f *streamFmt) {
 					return fmt.Sprintf("a stream failing with the error %q gives different items than one failing with another error", e)
 				}
 			}
+			// a reader that recovers after its one failure and goes on delivering the rest: the
+			// iteration ended with the error item, so nothing more may be read or delivered
+			if rc := f.reader(&faultReader{data: slices.Clone(data[:k]), resume: slices.Clone(data[k:])}, 2*len(data)+8); rc.String() != out.String() {
+				return "a stream that fails once and then recovers gives different items: the read error was not the end of the iteration"
+			}
 			if f.extra != nil {
 				if msg := f.extra(&faultReader{data: slices.Clone(data[:k]), forever: forever}, len(data)+8, out); msg != "" {
 					return msg
